@@ -23,6 +23,27 @@ def full(cfg):
     return {s: cfg.get(s, "unset") for s in SETTINGS}
 
 
+def fresh_hashes(refs):
+    """Each distinct reference scenario once in its own brand-new interpreter: {json key: hash of its result}."""
+    import os
+    import subprocess
+    code = ("import sys, json; sys.dont_write_bytecode = True; sys.path.insert(0, %r); sys.path.insert(0, %r)\n"
+            "from harness import impl\n"
+            "print(impl.c13_ref_hash(json.loads(sys.argv[1])))\n") % (core.repo_root(), core.VERIF)
+    keys = sorted(refs)
+    out = {}
+    env = dict(os.environ, PYTHONDONTWRITEBYTECODE="1", PYTHONHASHSEED="0", PYTRS_VERIF="1")
+    for i in range(0, len(keys), 16):
+        procs = [(k, subprocess.Popen(["/venv/bin/python", "-c", code, k], stdout=subprocess.PIPE, stderr=subprocess.PIPE,
+                                      text=True, env=env)) for k in keys[i:i + 16]]
+        for k, pr in procs:
+            o, e = pr.communicate(timeout=300)
+            if pr.returncode != 0:
+                raise core.MachineryFailure("fresh interpreter failed: %s" % e[-400:])
+            out[k] = int(o.strip().splitlines()[-1])
+    return out
+
+
 def check(ctx, cases):
     by_kind = {}
     for c in cases:
@@ -32,6 +53,9 @@ def check(ctx, cases):
         obs.update(ctx.impl_map(kind, cs))
     recs, by_id = [], {}
     nontriv_effect = 0
+    refs = {core.json.dumps(c["args"]["ref"], sort_keys=True) for c in cases if c["abs"]["kind"] == "scenario"}
+    fresh = fresh_hashes(refs) if refs else {}
+    ctx.notes["fresh_interpreter_references"] = ctx.notes.get("fresh_interpreter_references", 0) + len(fresh)
     for c in cases:
         o = obs.get(c["id"])
         if o is None:
@@ -47,7 +71,10 @@ def check(ctx, cases):
             ctx.nontrivial.add(("unknown", c["args"]["via"], c["args"]["text"]))
         else:
             recs.append({"id": c["id"], "kind": "scenario", "scn": c["abs"]["scn"], "used": c["abs"]["used"],
-                         "fp_obs": o["fp_obs"], "fp_ref": o["fp_ref"], "exc_obs": o["exc_obs"], "exc_ref": o["exc_ref"]})
+                         "fp_obs": o["fp_obs"], "fp_ref": o["fp_ref"], "exc_obs": o["exc_obs"], "exc_ref": o["exc_ref"],
+                         # the reference itself must be what a fresh interpreter gives (a setting that sticks to the
+                         # process makes scenario and reference wrong in the same way)
+                         "ref_pure": o.get("h_ref") == fresh.get(core.json.dumps(c["args"]["ref"], sort_keys=True))})
             if o["fp_ref"] != o["fp_default"]:
                 nontriv_effect += 1
                 ctx.nontrivial.add(("scenario", core.json.dumps(c["abs"]["scn"], sort_keys=True)))
